@@ -3,7 +3,128 @@ import GnpyModel
 /- driver handlers for property C19 (ops are named "c19.<name>") -/
 open Lean
 namespace Gnpy.Drv.C19
+open Gnpy.Response Gnpy.HE
+open Gnpy.Verdict (Pen)
 
-def handlers : List (String × Handler) := []
+/-- model tree → wire JSON; floats as {"$f": bits} -/
+partial def jToJson : J Float → Json
+  | .null => Json.null
+  | .bool b => Json.bool b
+  | .int i => toJson i
+  | .num x => Json.mkObj [("$f", jF x)]
+  | .str s => Json.str s
+  | .arr l => Json.arr (l.map jToJson).toArray
+  | .obj l => Json.arr ((l.map (fun kv => Json.arr #[Json.str kv.1, jToJson kv.2])).toArray.push (Json.str "$obj"))
+
+/-- wire JSON → model tree. Objects arrive as [[k, v], ..., "$obj"] so that key order is preserved. -/
+partial def jOfJson : Json → R (J Float)
+  | .null => pure .null
+  | .bool b => pure (.bool b)
+  | .str s => pure (.str s)
+  | .num n => match (Json.num n).getInt? with
+    | .ok i => pure (.int i)
+    | .error e => throw s!"non-integer number on the wire: {e}"
+  | .obj kvs =>
+    match kvs.toList with
+    | [("$f", v)] => do return .num (← getF v)
+    | _ => throw "unexpected object on the wire"
+  | .arr a =>
+    if a.size > 0 && a.back? == some (Json.str "$obj") then do
+      let items ← (a.toList.dropLast).mapM (fun kv => do
+        match ← getArr kv with
+        | [k, v] => return (← getStr k, ← jOfJson v)
+        | _ => throw "kv expected")
+      return .obj items
+    else do
+      return .arr (← a.toList.mapM jOfJson)
+
+def getPen (j : Json) : R (Pen Float) :=
+  match j with
+  | .null => pure .inf
+  | v => do return .fin (← getF v)
+
+def getRecv (j : Json) : R (Recv Float) := do
+  let pens ← fList (fun p => do return (← fStr p "name", ← fList getPen p "values")) j "penalties"
+  return { snr := ← fList getF j "snr", snr01 := ← fList getF j "snr_01nm", osnrAse := ← fList getF j "osnr_ase",
+           osnrAse01 := ← fList getF j "osnr_ase_01nm", pens := pens }
+
+def getEl (j : Json) : R El := do return { uid := ← fStr j "uid", isTrx := ← fBool j "is_trx" }
+
+def getNM (j : Json) (k : String) : R (Option (List (Option Int))) := fOpt (getList (getOpt getInt)) j k
+
+def getReq (j : Json) : R (Req Float) := do
+  return { id := ← fStr j "id", bidir := ← fBool j "bidir", tsp := ← fStr j "tsp", tspMode := ← fOpt getStr j "tsp_mode",
+           blocking := ← fOpt getStr j "blocking", n := ← getNM j "N", m := ← getNM j "M", power := ← fF j "power",
+           pathBandwidth := ← fF j "path_bandwidth" }
+
+def getRes (j : Json) : R (Res Float) := do
+  return { req := ← getReq (← fld j "req"), path := ← fList getEl j "path", fwd := ← fOpt getRecv j "fwd",
+           rev := ← fOpt getRecv j "rev" }
+
+/-- class-D margins of every 2-decimal rounding in `path_metric` of one receiver (units of x*100) -/
+def recvTies (r : Recv Float) : List Float :=
+  let pm (imp : String) : List Float := match r.pens.lookup imp with
+    | none => []
+    | some ps => if ps.any (fun p => match p with | .inf => true | .fin _ => false) then []
+                 else [tieMargin2 (mean (ps.map (fun p => match p with | .fin v => v | .inf => 0.0)))]
+  [tieMargin2 (mean r.snr), tieMargin2 (mean r.snr01), tieMargin2 (mean r.osnrAse), tieMargin2 (mean r.osnrAse01)]
+    ++ (match minL r.snr01 with | some v => [tieMargin2 v] | none => [])
+    ++ (match maxL r.snr01 with | some v => [tieMargin2 v] | none => [])
+    ++ pm "pdl" ++ pm "chromatic_dispersion" ++ pm "pmd"
+
+/-- results_to_json: one response (or error kind) per result, plus the smallest rounding margin -/
+def resultsH (j : Json) : R Json := do
+  let rs ← fList getRes j "results"
+  let out := rs.map (fun r =>
+    let ties := (match r.fwd with | some f => recvTies f | none => []) ++ (match r.rev with | some f => recvTies f | none => [])
+    let tie := ties.foldl (fun a b => if b < a then b else a) 1.0
+    match pathResult r.req r.path r.fwd r.rev with
+    | .ok v => jObj [("ok", jToJson v), ("tie", jF tie)]
+    | .error e => jObj [("error", jStr e), ("tie", jF tie)])
+  return Json.arr out.toArray
+
+def getAReq (pos : Nat) (j : Json) : R (AReq String Float) := do
+  return { pos := pos, parts := [← fStr j "id"], key := ← fStr j "key", hasMode := ← fBool j "has_mode",
+           bw := ← fF j "bw", n := ← fList (getOpt getInt) j "N", m := ← fList (getOpt getInt) j "M" }
+
+def aggregationH (j : Json) : R Json := do
+  let arr ← getArr (← fld j "requests")
+  let rs ← (arr.zip (List.range arr.length)).mapM (fun x => getAReq x.2 x.1)
+  let out := requestsAggregation rs
+  return jList (fun (r : AReq String Float) =>
+    jObj [("id", jStr r.idStr), ("parts", jList jStr r.parts), ("pos", jNat r.pos), ("bw", jF r.bw),
+          ("N", jList (jOpt jInt) r.n), ("M", jList (jOpt jInt) r.m)]) out
+
+def aggregationDH (j : Json) : R Json := do
+  let arr ← getArr (← fld j "requests")
+  let rs ← (arr.zip (List.range arr.length)).mapM (fun x => getAReq x.2 x.1)
+  let ds ← fList (fun d => do return ({ id := ← fStr d "id", reqs := ← fList getStr d "reqs" } : Disj)) j "disjunctions"
+  let (out, dso) := requestsAggregationD rs ds
+  return jObj [("requests", jList (fun (r : AReq String Float) =>
+                  jObj [("id", jStr r.idStr), ("bw", jF r.bw), ("N", jList (jOpt jInt) r.n), ("M", jList (jOpt jInt) r.m)]) out),
+               ("disjunctions", jList (fun (d : Disj) => jObj [("id", jStr d.id), ("reqs", jList jStr d.reqs)]) dso)]
+
+def getModeInfo (j : Json) : R (ModeInfo Float) := do
+  return { trxType := ← fStr j "trx_type", format := ← fStr j "format", osnr := ← fF j "osnr",
+           baudRate := ← fF j "baud_rate", bitRate := ← fF j "bit_rate", cost := ← jOfJson (← fld j "cost") }
+
+def csvH (j : Json) : R Json := do
+  let lib ← fList getModeInfo j "lib"
+  let margin ← fF j "margin"
+  let resps ← fList jOfJson j "responses"
+  let out := resps.map (fun r =>
+    match csvRow r lib margin with
+    | .ok (row, q, cost) =>
+      jObj [("fields", Json.arr ((row.fields.map (fun kv => Json.arr #[jStr kv.1, jToJson kv.2])).toArray)),
+            ("nb_quot", jOpt jF q), ("cost", jToJson cost)]
+    | .error e => jObj [("error", jStr e)])
+  return Json.arr out.toArray
+
+def batchCheckH (j : Json) : R Json := do
+  return jOpt jStr (batchCheck (← fList getBool j "trx_known") (← fList getStr j "ids") (← fList getBool j "endpoints_known")
+    (← fList getBool j "strict_unknown_include"))
+
+def handlers : List (String × Handler) :=
+  [("c19.batch_check", batchCheckH), ("c19.results", resultsH), ("c19.aggregation", aggregationH), ("c19.aggregation_d", aggregationDH), ("c19.csv", csvH)]
 
 end Gnpy.Drv.C19
